@@ -109,6 +109,33 @@ def explore(res, tier, seed, model_ok=True):
         res.case(line)
         judge(res, cls, js, line, real, exp, bad)
     coreutil.check_corr(res, pairs)
+    # ---- the same violations on an object with a history: what an EARLIER connection negotiated or left half-parsed must not
+    # make a violation acceptable on the next connection (RSV1 after a connection with permessage-deflate, a continuation after
+    # a connection that ended inside a fragmented message, ...)
+    g0 = Scenario([])
+    prevs = [('deflate-negotiated', Scenario(reads([g0.good_reply(b'Sec-WebSocket-Extensions: permessage-deflate\r\n') + server_frame(1, b'plain')]) + [('wait', 0, ('eof',))], {}, prate=0)),
+             ('mid-fragment', Scenario(reads([g0.good_reply() + server_frame(1, b'he', fin=0)]) + [('wait', 0, ('eof',))], {}, prate=0)),
+             ('closing', Scenario(reads([g0.good_reply()]) + [('wait', 0, ('eof',))], {2: [('close', 1000, ('b', b''))]}, prate=0))]
+    nexts = []
+    for cls, frame in (('rsv-bits', server_frame(2, bytes.fromhex('f248cdc9c90700'), rsv1=1)), ('rsv-bits', server_frame(1, b'x', rsv1=1)),
+                       ('orphan-continuation', server_frame(0, b'llo', fin=1)), ('reserved-opcode', server_frame(3, b''))):
+        s2 = Scenario([], {}, prate=0)
+        s2.key_seed = 77
+        s2.env = reads([s2.good_reply() + frame + server_frame(1, b'after')]) + [('wait', 0, ('eof',))]
+        nexts.append((cls, s2))
+    chains = [[coreutil.scenario_to_json(a), coreutil.scenario_to_json(b)] for _, a in prevs for _, b in nexts]
+    cmeta = [(pn, cls) for pn, _ in prevs for cls, _ in nexts]
+    fresh = coreutil.run_pairs([b for _, b in nexts], model_ok)
+    for (pn, cls), ch, tr in zip(cmeta, chains, runner.parallel_map('coreutil', 'real_chain', chains, chunk=4)):
+        if isinstance(tr, dict):
+            res.crashes.append(tr); continue
+        res.case(('after', pn, cls)); res.count('violation_after_' + pn)
+        got = tr[-1]
+        want = fresh[[c for c, _ in nexts].index(cls) if cls != 'rsv-bits' else 0][2]
+        evs2 = [t for t in got.split(' ') if t.startswith('E:')]
+        if not any(e.startswith('E:protocol_error') for e in evs2) or any(e.startswith(('E:text', 'E:binary')) for e in evs2):
+            res.failures.append(dict(cls='violation:' + cls, what='on an object whose previous connection was "%s": the violation was not reported / a message was delivered' % pn,
+                                     input=dict(previous=ch[:-1], next=ch[-1]), observed=[e[:80] for e in evs2]))
     # ---- all two-byte headers ----------------------------------------------------------
     states = [('idle', b'', False)]
     if tier == 'thorough':
@@ -206,4 +233,9 @@ def header_verdict(b0, b1, state, deflate):
 
 
 def replay(rp):
+    inp = rp.get('input')
+    if isinstance(inp, dict) and 'previous' in inp:
+        for t in coreutil.real_chain(inp['previous'] + [inp['next']]):
+            print(t)
+        return 0
     return coreutil.replay_core(rp)
